@@ -622,3 +622,48 @@ Proof.
   destruct s as [|c s]; [congruence|]. unfold unary_hash. cbn.
   destruct (repeat 97%N (N.to_nat c)); discriminate.
 Qed.
+
+(* ------------------------------------------------------------------ *)
+(** * K3 and K4 for every hasher *)
+
+(* K4 holds for every hasher whatsoever *)
+Lemma ordered_repetition_refuted_any : forall H : pystr -> pystr,
+  hash_pure H ordered_mode (VList [VAtom (AInt 1); VAtom (AInt 2); VAtom (AInt 1)]) =
+  hash_pure H ordered_mode (VList [VAtom (AInt 1); VAtom (AInt 1); VAtom (AInt 2)]).
+Proof.
+  intro H. cbn [hash_pure map]. do 3 f_equal.
+  set (h1 := hash_atom H ordered_mode (AInt 1)). set (h2 := hash_atom H ordered_mode (AInt 2)).
+  unfold arrange, counts, count. cbn [ignore_repetition ignore_iterable_order ordered_mode mode_opts dedup filter map].
+  rewrite !pystr_eqb_refl. cbn [negb filter].
+  destruct (pystr_eqb h1 h2) eqn:E12.
+  - apply pystr_eqb_eq in E12. rewrite <- E12. rewrite !pystr_eqb_refl. cbn. reflexivity.
+  - assert (E21 : pystr_eqb h2 h1 = false).
+    { apply pystr_eqb_neq. apply pystr_eqb_neq in E12. congruence. }
+    cbn [negb filter]. rewrite ?E21, ?E12, ?pystr_eqb_refl. cbn [negb filter].
+    rewrite ?E21, ?E12, ?pystr_eqb_refl. cbn. rewrite ?E21, ?E12, ?pystr_eqb_refl. reflexivity.
+Qed.
+
+(* K3 for every hasher that satisfies the hypotheses of C07 *)
+Section K3.
+Variable H : pystr -> pystr.
+Hypothesis H_tok : forall s, s <> [] -> sepfree (H s).
+Hypothesis H_inj : forall s t, H s = H t -> s = t.
+
+Lemma ordered_set_refuted_any :
+  hash_pure H ordered_mode (VSet [AInt 0; AInt 8]) <> hash_pure H ordered_mode (VSet [AInt 8; AInt 0]).
+Proof.
+  intro He. rewrite !hash_pure_ser in He. apply H_inj in He. cbn in He. inversion He as [He']. clear He.
+  change (join c_comma (arrange ordered_mode (map (hash_atom H ordered_mode) [AInt 0; AInt 8])) =
+          join c_comma (arrange ordered_mode (map (hash_atom H ordered_mode) [AInt 8; AInt 0]))) in He'.
+  assert (Hp : plain ordered_mode = true) by reflexivity.
+  apply (set_join_inv H H_tok) in He'; auto.
+  assert (Hne : hash_atom H ordered_mode (AInt 0) <> hash_atom H ordered_mode (AInt 8)).
+  { intro E. apply (hash_atom_inj H H_inj) in E; auto. discriminate E. }
+  apply arrange_ordered_inv in He'; try reflexivity.
+  - cbn in He'. inversion He' as [[E0 E8]]. apply Hne. exact E0.
+  - cbn [map]. repeat constructor; apply hash_atom_tok; auto.
+  - cbn [map]. repeat constructor; apply hash_atom_tok; auto.
+  - cbn [map]. constructor; [|constructor; [|constructor]]; cbn; intuition.
+  - cbn [map]. constructor; [|constructor; [|constructor]]; cbn; intuition.
+Qed.
+End K3.
